@@ -232,8 +232,8 @@ func registerAll() {
 	}
 	propTable["C14"] = &PropSpec{
 		ID:          "C14",
-		Rules:       []string{"S3", "S4", "S5"},
-		Explanation: "Structural necessary conditions of 'a failed commit loses nothing': in every function that writes registers, a write-set entry is deleted (and the cache updated) only on the err==nil edge of the BaseStorage write of the same id on all paths; each completed apply-loop iteration issues a write; every error of a register write, of EncodeSlab and of a worker result surfaces as a non-nil returned error with no storage-map or register write after it.",
+		Rules:       []string{"S3", "S4", "S5", "S2"},
+		Explanation: "Structural necessary conditions of 'a failed commit loses nothing': in every function that writes registers, a write-set entry is deleted (and the cache updated) only on the err==nil edge of the BaseStorage write of the same id on all paths; each completed apply-loop iteration issues a write; every error of a register write, of EncodeSlab and of a worker result surfaces as a non-nil returned error with no storage-map or register write after it. Both commits collect only owned identifiers (the temporary-address filter), so the order-relaxed commit and its retries converge to the registers of the deterministic one.",
 		NotDecided:  "byte-identity of the ledger after retries (depends on encode determinism, C04/C07) and behaviour of the client BaseStorage.",
 		Technique:   "CFG path rules on go/ssa: must-precede / edge-dominance of delete(deltas) by the nil-error edge of the register write, loop-iteration coverage, error-edge reachability",
 	}
